@@ -149,8 +149,9 @@ def expected_writes(c, m, sandbox):
         put(R1, le(o["n"], 4))
     elif k in ("read", "pread"):
         put(R1, le(o["n"], 4))
+        stride = 0x10 if len(c.get("lens", [])) > 16 else 0x100
         for j, buf in enumerate(o["bufs"]):
-            put(RBUF + 0x100 * j, buf)
+            put(RBUF + stride * j, buf)
     elif k in ("seek", "tell"):
         put(R1, o["off"])
     elif k == "filestat":
